@@ -33,10 +33,10 @@ CONF = {
                 runs={"quick": 4000, "thorough": 80000},
                 wall={"quick": 170, "thorough": 1800}),
     "C07": dict(module="xsim.eng_c07", stub=True, kind="shards", shadow_hashseed=0,
-                runs={"quick": 4000, "thorough": 80000},
+                runs={"quick": 16000, "thorough": 400000},
                 wall={"quick": 150, "thorough": 1500}),
     "C08": dict(module="xsim.eng_c08", stub=True, kind="shards", shadow_hashseed=0,
-                runs={"quick": 4000, "thorough": 80000},
+                runs={"quick": 16000, "thorough": 400000},
                 wall={"quick": 150, "thorough": 1500}),
     "C12": dict(module="xsim.eng_c12", stub=False, kind="hash",
                 runs={"quick": 400, "thorough": 3000},
